@@ -249,3 +249,22 @@ def partial_hof_keeps_closures(x: int, y: int, p: int, q: int, r: int) -> bool:
     return ev(T['partial_hof_closure'], **v) == [x * q + y * q, x * r + y * r, p] \
         and ev(T['partial_hof_foreach'], **v) == [x + q, y + q, abs(x), abs(y)] \
         and ev(T['partial_hof_named_called'], **v) == [abs(x), abs(x), abs(y)]
+
+
+T.update(parse_all({
+    'fold_zero_empty': '(count(fold-left((), (), function($a, $b) { $a })), count(fold-right((), (), function($a, $b) { $b })), count(array:fold-left([], (), function($a, $b) { $a })))',
+    'fold_zero_seq': 'fold-left(($x, $y), ($p, $q), function($a, $b) { ($a, $b) })', 'fold_zero_seq_r': 'fold-right(($x, $y), ($p, $q), function($a, $b) { ($a, $b) })',
+    'fold_zero_arr': 'array:fold-left([$x, ($y, $p)], (), function($a, $b) { ($a, $b) })', 'fold_zero_none': 'fold-left(($x, $y), (), function($a, $b) { ($b, $a) })',
+}))
+
+
+@ob(budget=120, bound='x, y, p, q: unbounded integers: the zero value of fold-left / fold-right / array:fold-left is a sequence of any length (empty, two '
+                      'items): results equal the definitional expansion, an empty input returns the zero value (never a list holding None)',
+    funcs=['elementpath/xpath30/_xpath30_functions.py:select__fold_left/select__fold_right', 'elementpath/xpath31/_xpath31_functions.py:array:fold-left/right'])
+def fold_zero_is_a_sequence(x: int, y: int, p: int, q: int) -> bool:
+    """
+    post: _
+    """
+    v = dict(x=x, y=y, p=p, q=q)
+    return ev(T['fold_zero_empty'], **v) == [0, 0, 0] and ev(T['fold_zero_seq'], **v) == [p, q, x, y] and ev(T['fold_zero_seq_r'], **v) == [x, y, p, q] \
+        and ev(T['fold_zero_arr'], **v) == [x, y, p] and ev(T['fold_zero_none'], **v) == [y, x]
